@@ -17,7 +17,7 @@ Clause(name, holds) == IF holds THEN TRUE ELSE Report(name, {})
 Want == IF "CLAUSES" \in DOMAIN IOEnv THEN IOEnv.CLAUSES ELSE "all"
 
 CheckCase ==
-    /\ Clause("write", Ev.write = "ok")
+    /\ Clause("write", Ev.write = WriteExpected(Ev.before, Ev.enc))
     /\ Ev.write = "ok" =>
           /\ Want \in {"all", "doc"} =>
                 /\ Clause("wellformed", "wellformed" \in DOMAIN Ev /\ Ev.wellformed = 1)
@@ -27,7 +27,7 @@ CheckCase ==
                             LET iss == DocIssues(Ev.doc, Ev.before, Ev.enc) IN
                             IF iss = {} THEN TRUE ELSE Report("docmeans", iss)
           /\ Want \in {"all", "roundtrip"} =>
-                /\ Clause("read", Ev.read = "ok")
+                /\ Clause("read", Ev.read = ReadExpected(Ev.before, Ev.enc, Ev.dec))
                 /\ Ev.read = "ok" =>
                       /\ Clause("rootclass", Ev.root_class = "DataModel")
                       /\ LET iss == XmlRoundTripIssues(Ev.after, Ev.before, Ev.enc, Ev.dec) IN
